@@ -3,6 +3,7 @@
 import json
 ids=[json.loads(l)['id'] for l in open('/verif/properties.jsonl')]
 claimed = {
+ "C18": ("real exporter and real collector TLS/DTLS handshakes (crypto/tls, pion/dtls) over the simulated network in fake time: certificate zoo with fixed validity windows, bubble clock moved before / inside / after them, trust-matrix model; adversarial peers (TLS server capped at 1.1/1.2/1.3, plaintext sender, plaintext listener), re-use of one client configuration object", "6 C18"),
  "C14": ("real exporter with its refresh / connection-check goroutines in fake time: sends on and 1 ns around ticks, first template after the first tick, peer FIN, write error on a refresh datagram, concurrent repeated Close, sends after Close; tap + independent decoder + goroutine census (sim layer) and race detector (race layer)", "6 C14"),
  "C12": ("1-8 raw clients over tcp / udp / tls against the real Start()/Stop() path under the seeded baton scheduler with preemptions (sim layer) and under the race detector (race layer); stalling consumer, abrupt closes, Stop during traffic; per-connection order / exactly-once model, connection count, Stop liveness in simulated time, goroutine + socket census", "6 C12"),
  "C13": ("2-4 tasks on one real AggregationProcess under the seeded baton scheduler with preemptions inside library methods (sim layer) and as real goroutines under the race detector (race layer); invoke/return history checked with porcupine against the sequential model; worker-pool member; map/heap bijection after the run", "6 C13"),
